@@ -101,6 +101,11 @@ func TargetedReq(rng *rand.Rand, s *Spec, patternHost string, hostnameProb float
 		switch rng.Intn(4) {
 		case 0:
 			host = "www." + patternHost
+			if q.HostnameReq && rng.Intn(2) == 0 {
+				// Names nobody validated: labels that hold characters
+				// outside the host alphabet in front of the name.
+				host = []string{"\u0440\u0435\u043a\u043b\u0430\u043c\u0430.", "*.", "a@b.", "x~y.", "a+b.", "_dmarc.", "a%20b."}[rng.Intn(7)] + patternHost
+			}
 		case 1:
 			host = "x" + patternHost
 		default:
